@@ -2,7 +2,7 @@
    Only theorem statements closed by `exact`, each followed by Print Assumptions.
    All theorems quantify over ALL integers (Z): every short/long boundary is covered. *)
 From Coq Require Import ZArith Bool.
-From C15 Require Import Model Statement Proofs Proofs2 ProofsFixed.
+From C15 Require Import Model Statement Proofs Proofs2 Proofs3 ProofsFixed.
 Open Scope Z_scope.
 
 (* representation: tagging is invertible, well formed, and short exactly when the value fits 63 bits *)
@@ -44,21 +44,42 @@ Theorem remainder_op_correct : forall a b, tagged_remainder (tag a) (tag b) = rm
 Proof. exact remainder_correct. Qed.
 Print Assumptions remainder_op_correct.
 
-(* the proved part of Statement.tagged_ops_correct: invert, and/or/xor, lshift/rshift are NOT proved (only tied by
-   correspondence) *)
-Theorem tagged_ops_correct_partial : forall a b,
-    tagged_negate (tag a) = tag (py_neg a) /\
-    tagged_add (tag a) (tag b) = tag (py_add a b) /\
-    tagged_subtract (tag a) (tag b) = tag (py_sub a b) /\
-    tagged_multiply (tag a) (tag b) = tag (py_mul a b) /\
-    tagged_floordiv (tag a) (tag b) = rmap tag (py_floordiv a b) /\
-    tagged_remainder (tag a) (tag b) = rmap tag (py_mod a b).
+(* bitwise operations and shifts: fast paths on the tagged words, overflow check by shifting back, slow paths *)
+Theorem invert_op_correct : forall a, tagged_invert (tag a) = tag (py_invert a).
+Proof. exact invert_correct. Qed.
+Print Assumptions invert_op_correct.
+
+Theorem and_op_correct : forall a b, tagged_and (tag a) (tag b) = tag (py_and a b).
+Proof. exact and_correct. Qed.
+Print Assumptions and_op_correct.
+
+Theorem or_op_correct : forall a b, tagged_or (tag a) (tag b) = tag (py_or a b).
+Proof. exact or_correct. Qed.
+Print Assumptions or_op_correct.
+
+Theorem xor_op_correct : forall a b, tagged_xor (tag a) (tag b) = tag (py_xor a b).
+Proof. exact xor_correct. Qed.
+Print Assumptions xor_op_correct.
+
+(* ValueError exactly for a negative count; counts >= 64 give 0 / -1; result canonical *)
+Theorem rshift_op_correct : forall a b, tagged_rshift (tag a) (tag b) = rmap tag (py_rshift a b).
+Proof. exact rshift_correct. Qed.
+Print Assumptions rshift_op_correct.
+
+Theorem lshift_op_correct : forall a b, tagged_lshift (tag a) (tag b) = rmap tag (py_lshift a b).
+Proof. exact lshift_correct. Qed.
+Print Assumptions lshift_op_correct.
+
+(* the full statement for the tagged primitives: every operation, all integers *)
+Theorem tagged_ops_correct_holds : tagged_ops_correct.
 Proof.
   intros a b.
-  exact (conj (negate_correct a) (conj (add_correct a b) (conj (subtract_correct a b) (conj (multiply_correct a b)
-        (conj (floordiv_correct a b) (remainder_correct a b)))))).
+  exact (conj (negate_correct a) (conj (invert_correct a) (conj (add_correct a b) (conj (subtract_correct a b)
+        (conj (multiply_correct a b) (conj (floordiv_correct a b) (conj (remainder_correct a b)
+        (conj (and_correct a b) (conj (or_correct a b) (conj (xor_correct a b)
+        (conj (lshift_correct a b) (rshift_correct a b)))))))))))).
 Qed.
-Print Assumptions tagged_ops_correct_partial.
+Print Assumptions tagged_ops_correct_holds.
 
 (* comparisons: the lowering (compare_tagged) and the C runtime versions *)
 Theorem comparisons_correct_holds : comparisons_correct.
@@ -130,6 +151,23 @@ Theorem fixed_negate_invert_correct : forall t x,
 Proof. intros t x. exact (conj (fw_neg_correct t x) (fw_invert_signed_correct t x)). Qed.
 Print Assumptions fixed_negate_invert_correct.
 
+Theorem u8_invert_wraps : forall x, in_range U8 x = true -> fw_invert U8 x = (py_invert x) mod 256.
+Proof. exact u8_invert_correct. Qed.
+Print Assumptions u8_invert_wraps.
+
+(* all fixed-width operators at once (shift counts inside [0, bits)) *)
+Theorem fixed_width_correct_holds : fixed_width_correct.
+Proof. exact ProofsFixed.fixed_width_correct_holds. Qed.
+Print Assumptions fixed_width_correct_holds.
+
+(* the complete statement of Statement.v *)
+Theorem C15_statement_holds : C15_statement.
+Proof.
+  exact (conj tagged_ops_correct_holds (conj comparisons_correct_holds (conj representation_canonical_holds
+        (conj fixed_width_correct_holds (conj conversions_correct_holds u8_wraps_mod_256))))).
+Qed.
+Print Assumptions C15_statement_holds.
+
 (* The property text asks fixed-width shifts to agree with Python for EVERY count whose exact result fits;
    the faithful model refutes it: a count outside [0, bits) is C undefined behaviour (findings native-shift). *)
 Theorem fixed_width_shift_all_counts_refuted : ~ fixed_width_shift_all_counts.
@@ -157,5 +195,11 @@ Example ex_inline : fw_signed I32 = true /\ in_range I32 (-7) = true /\ in_range
 Proof. vm_compute. repeat split; reflexivity. Qed.
 Example ex_u8_wrap : fw_op U8 FAdd 200 100 = FOk 44.
 Proof. vm_compute. reflexivity. Qed.
+Example ex_lshift_boundary : tagged_lshift (tag 1) (tag 62) = Ok (Long B62) /\ tagged_lshift (tag 1) (tag 61) = Ok (Short B62).
+Proof. vm_compute. split; reflexivity. Qed.
+Example ex_rshift_big_count : tagged_rshift (tag (-5)) (tag 70) = Ok (tag (-1)) /\ tagged_rshift (tag 1) (tag (-1)) = Raise ValueError.
+Proof. vm_compute. split; reflexivity. Qed.
+Example ex_fixed_hyp : in_range I16 (-32768) = true /\ in_range I16 3 = true /\ fw_op I16 FShr (-32768) 3 = FOk (-4096).
+Proof. vm_compute. repeat split; reflexivity. Qed.
 Example ex_wf : wf (Long B62) /\ wf (Short 10).
 Proof. vm_compute. repeat split; intros; discriminate. Qed.
